@@ -49,6 +49,8 @@ pub enum Req {
     Manifest { value: u32, multiline: bool },
     ToThunk { value: u32 },
     MakeArray { values: Vec<u32> },
+    /// Program::make_object with fields f0, f1, … holding earlier results
+    MakeObject { values: Vec<u32> },
     Gc,
     DropThunk(u32),
     DropValue(u32),
@@ -87,6 +89,7 @@ impl Op {
             Req::Manifest { value, multiline } => vec![("op", Json::str("manifest")), ("value", u(value)), ("multiline", Json::Bool(*multiline))],
             Req::ToThunk { value } => vec![("op", Json::str("to_thunk")), ("value", u(value))],
             Req::MakeArray { values } => vec![("op", Json::str("make_array")), ("values", Json::Arr(values.iter().map(u).collect()))],
+            Req::MakeObject { values } => vec![("op", Json::str("make_object")), ("values", Json::Arr(values.iter().map(u).collect()))],
             Req::Gc => vec![("op", Json::str("gc"))],
             Req::DropThunk(h) => vec![("op", Json::str("drop_thunk")), ("handle", u(h))],
             Req::DropValue(h) => vec![("op", Json::str("drop_value")), ("handle", u(h))],
@@ -119,6 +122,7 @@ impl Op {
             "manifest" => Req::Manifest { value: u("value")?, multiline: b("multiline") },
             "to_thunk" => Req::ToThunk { value: u("value")? },
             "make_array" => Req::MakeArray { values: us("values")? },
+            "make_object" => Req::MakeObject { values: us("values")? },
             "gc" => Req::Gc,
             "drop_thunk" => Req::DropThunk(u("handle")?),
             "drop_value" => Req::DropValue(u("handle")?),
@@ -175,6 +179,13 @@ pub fn do_top<'p>(ctx: &mut Ctx<'p>, t: &Thunk<'p>, tla: &[(String, bool, String
         other => other,
     };
     (out, Some(v))
+}
+
+pub fn do_make_object<'p>(ctx: &mut Ctx<'p>, vs: &[Value<'p>]) -> (Out, Value<'p>) {
+    let fields: Vec<_> = vs.iter().enumerate().map(|(i, v)| (ctx.program.intern_str(&format!("f{i}")), v.clone())).collect();
+    let v = ctx.program.make_object(&fields);
+    let out = ctx.manifest_and_walk(&v);
+    (out, v)
 }
 
 pub fn do_make_array<'p>(ctx: &mut Ctx<'p>, vs: &[Value<'p>]) -> (Out, Value<'p>) {
@@ -334,6 +345,21 @@ impl<'p> Exec<'p> {
                     vs.push(self.values[k].1.clone());
                 }
                 let (out, v) = do_make_array(&mut self.ctx, &vs);
+                self.values.push((i, v));
+                out
+            }
+            Req::MakeObject { values } => {
+                if self.values.is_empty() {
+                    res.noop = true;
+                    return none();
+                }
+                let mut vs = Vec::new();
+                for h in values {
+                    let k = self.sel_value(*h).unwrap();
+                    res.values.push(self.values[k].0);
+                    vs.push(self.values[k].1.clone());
+                }
+                let (out, v) = do_make_object(&mut self.ctx, &vs);
                 self.values.push((i, v));
                 out
             }
